@@ -41,6 +41,17 @@ def gen_slice(ctx, slice_name, nshards, size=0, length=0, module="MC_PegGen", jo
     return dest, rs, n
 
 
+def thin(path, every):
+    """Keeps every `every`-th grammar of a generated cases file (quick tiers: the large slices are sampled evenly;
+    the thorough tier runs them whole)."""
+    if every <= 1:
+        return
+    lines = nl_lines(path)
+    with open(path, "w") as f:
+        for l in lines[::every]:
+            f.write(l + "\n")
+
+
 def validate_batches(ctx, module, batches, envkey="BATCH", jobs=8, timeout=3000):
     """Runs TLC trace/batch validation on each file; returns list of (file, TlcResult, rejected, skipped)
     where rejected = [(kind, id, obj)]."""
